@@ -190,6 +190,12 @@ func (ch c09) Run(c *core.Ctx) {
 			st.Ops = append(st.Ops, hs.Op{K: "row", Vals: r})
 		}
 		st.Ops = append(st.Ops, hs.Op{K: "complete", Tag: fmt.Sprintf("SELECT %d", len(t.Rows))})
+		if i%7 == 3 || i%7 == 4 {
+			// the handler scans each source row into one set of destination variables and hands the
+			// same slice of pointers to Row every time
+			st.ScanRow = true
+			c.Count("tables_written_from_scan_destinations", 1)
+		}
 		q := fmt.Sprintf("T%d", i)
 		sess.Progs[q] = &hs.Prog{Stmts: []*hs.Stmt{st}}
 		var in []byte
